@@ -157,23 +157,27 @@ def unit_late_classes():
                 # every *.py file of the folder is a plug-in module, whatever its name
                 for fname, cname in (("p.py", "FolderCheck"), ("__init__.py", "InitFolderCheck"), ("_private.py", "PrivateFolderCheck")):
                     with open(os.path.join(tmp, fname), "w") as f: f.write("from cutplace import checks\nclass %s(checks.AbstractCheck):\n    pass\n" % cname)
-                steps = {"cid": "interface.Cid()\n", "plugins": "interface.import_plugins(%r)\n" % tmp, "bracket": "",
+                # a second plug-in folder whose module file has the same name as one of the first folder: both folders' classes count
+                os.mkdir(os.path.join(tmp, "second"))
+                with open(os.path.join(tmp, "second", "p.py"), "w") as f: f.write("from cutplace import checks\nclass SecondFolderCheck(checks.AbstractCheck):\n    pass\n")
+                steps = {"cid": "interface.Cid()\n", "plugins": "interface.import_plugins(%r)\n" % tmp, "plugins2": "interface.import_plugins(%r)\n" % os.path.join(tmp, "second"), "bracket": "",
                          "gc": "import gc\ngc.collect()\n",       # plug-in classes stay available however long the process runs (a garbage collection must not take them away)
                          "derive": "class LateFieldFormat(fields.TextFieldFormat):\n    pass\nclass LateCheck(checks.IsUniqueCheck):\n    pass\n",        # user classes built on the built-in ones
                          "define": "class LateFieldFormat(fields.AbstractFieldFormat):\n    def __init__(self, n, e, l, r, d):\n        super().__init__(n, e, l, r, d, empty_value='')\n    def validated_value(self, v):\n        return v\n"
                                    "class LateCheck(checks.AbstractCheck):\n    pass\n"}
                 code = ("import sys; sys.path.insert(0, %r)\nfrom cutplace import interface, fields, checks\n" % os.environ.get("PYVC_REPO", "/repo")) + "".join(steps[o] for o in order)
                 code += ("cid = interface.Cid(); cid.read('c', [['d','format','delimited'],['f','a','','','','Late',''],['f','b','','','','Text',''],['c','x','Late','a']%s])\n"
-                         "print(type(cid.field_formats[0]).__name__, type(cid.check_for('x')).__name__%s)\n") % (",['c','y','Folder','a'],['c','y2','InitFolder','a'],['c','y3','PrivateFolder','a']" if "plugins" in order else "", ", type(cid.check_for('y')).__name__, type(cid.check_for('y2')).__name__, type(cid.check_for('y3')).__name__" if "plugins" in order else "")
+                         "print(type(cid.field_formats[0]).__name__, type(cid.check_for('x')).__name__%s)\n") % ((",['c','y','Folder','a'],['c','y2','InitFolder','a'],['c','y3','PrivateFolder','a']" if "plugins" in order else "") + (",['c','z','SecondFolder','a']" if "plugins2" in order else ""), (", type(cid.check_for('y')).__name__, type(cid.check_for('y2')).__name__, type(cid.check_for('y3')).__name__" if "plugins" in order else "") + (", type(cid.check_for('z')).__name__" if "plugins2" in order else ""))
                 p = subprocess.run([sys.executable, "-W", "ignore", "-c", code], capture_output=True, text=True, timeout=120)
-                want = "LateFieldFormat LateCheck" + (" FolderCheck InitFolderCheck PrivateFolderCheck" if "plugins" in order else "")
+                want = "LateFieldFormat LateCheck" + (" FolderCheck InitFolderCheck PrivateFolderCheck" if "plugins" in order else "") + (" SecondFolderCheck" if "plugins2" in order else "")
                 return None if p.stdout.strip().endswith(want) else {"expected": want, "observed": (p.stdout + p.stderr)[-400:]}
             finally:
                 shutil.rmtree(tmp, ignore_errors=True)
         orders = [("derive",), ("cid", "derive"), ("define",), ("cid", "define"), ("cid", "define", "cid"), ("plugins", "define"), ("cid", "plugins", "define"), ("define", "cid", "plugins"), ("cid", "plugins", "cid", "define", "cid"),
-                  ("plugins", "gc", "define"), ("cid", "plugins", "gc", "cid", "define", "gc"), ("bracket", "plugins", "define")]
+                  ("plugins", "gc", "define"), ("cid", "plugins", "gc", "cid", "define", "gc"), ("bracket", "plugins", "define"),
+                  ("plugins", "plugins2", "define"), ("plugins2", "plugins", "define"), ("plugins", "cid", "plugins2", "define"), ("plugins", "plugins", "plugins2", "plugins2", "define")]
         r3 = sweep("C20/protocol/user classes resolve by class name whenever they are defined (before / after other Cids, after a plug-in import)", orders, late_check, "bounded",
-                   "12 orders of {create a Cid, import a plug-in folder (also one whose name contains glob characters), run a garbage collection, define user classes (directly on the abstract base classes, or derived from a built-in class)} before the CID that names them is read (one subprocess each)", describe=lambda o: {"order": list(o)},
+                   "16 orders of {create a Cid, import a plug-in folder (also one whose name contains glob characters), import a second folder holding a module file of the same name, import a folder twice, run a garbage collection, define user classes (directly on the abstract base classes, or derived from a built-in class)} before the CID that names them is read (one subprocess each)", describe=lambda o: {"order": list(o)},
                    function="interface.Cid.__init__ + _create_name_to_class_map + import_plugins", unit="C20.late-classes")
         def close_once_check(kind):
             import io
